@@ -134,7 +134,8 @@ func (l *livelockWatch) spinning() bool {
 
 // (a bare "semacquire" is NOT a wait for another goroutine of the program: it is what a goroutine shows while the
 // runtime holds it - garbage-collection assist, the stop-the-world of the very dump being taken; the sync package's
-// own waits have names of their own: sync.Mutex.Lock, sync.RWMutex.RLock, sync.Cond.Wait, sync.WaitGroup.Wait)
+// own waits have names of their own - sync.Mutex.Lock, sync.RWMutex.RLock, sync.Cond.Wait - or, for sync.WaitGroup.Wait
+// under go1.23, go through sync.runtime_Semacquire: see semWait)
 var waitingState = regexp.MustCompile(`^goroutine \d+ \[(sync\.|chan |select)`)
 
 // libBusy reports whether some goroutine with a library frame on its stack is running, runnable or in a system
@@ -148,7 +149,7 @@ func libBusy(dump string) bool {
 		if i := strings.Index(g, "\n"); i > 0 {
 			first = g[:i]
 		}
-		if !waitingState.MatchString(first) {
+		if !waitingState.MatchString(first) && !semWait(first, g) {
 			return true
 		}
 	}
